@@ -8,9 +8,16 @@ PID = "C18"
 
 CFG = {
     # tier: list of (label, constants)
-    "quick": [("maxPk0-3/len5", dict(SeqAlpha="{0, 1, 65535}", MaxPks="{0, 1, 2, 3}", MaxLen=5))],
+    "quick": [
+        ("maxPk0-3/len5", dict(SeqAlpha="{0, 1, 65535}", MaxPks="{0, 1, 2, 3}", MaxLen=5)),
+        # deep probation: two sources, long enough for the consecutive-run and majority rules to compete
+        ("maxPk7/len8", dict(Addrs='{"A", "B"}', SeqAlpha="{0, 1, 2}", MaxPks="{7}", MaxLen=8,
+                               InitRemotes='{"A"}')),
+    ],
     "thorough": [
         ("maxPk0-4/len7", dict(SeqAlpha="{0, 1, 2, 65535}", MaxPks="{0, 1, 2, 3, 4}", MaxLen=7)),
+        ("maxPk5-8/len9", dict(Addrs='{"A", "B"}', SeqAlpha="{0, 1, 2, 65535}", MaxPks="{5, 6, 7, 8}", MaxLen=9,
+                               InitRemotes='{"A"}')),
     ],
 }
 
@@ -19,11 +26,11 @@ def write_cfg(path, c, emit, deviations="{}"):
     with open(path, "w") as f:
         f.write(f"""SPECIFICATION Spec
 CONSTANTS
-  Addrs = {{"A", "B", "C"}}
+  Addrs = {c.get('Addrs', '{"A", "B", "C"}')}
   SeqAlpha = {c['SeqAlpha']}
   MaxPks = {c['MaxPks']}
   MaxLen = {c['MaxLen']}
-  InitRemotes = {{"A", "Unset"}}
+  InitRemotes = {c.get('InitRemotes', '{"A", "Unset"}')}
   Deviations = {deviations}
 VIEW view
 INVARIANTS TypeOK Bounded BoundedImmediate
@@ -63,7 +70,7 @@ def run(tier):
     for label, consts in CFG[tier]:
         cfg = os.path.join(vlib.SPEC, f"MC_Latch_{tier}.gen.cfg")
         write_cfg(cfg, consts, emit=True)
-        edges = os.path.join(ck.dir, f"edges_{tier}.ndjson")
+        edges = os.path.join(ck.dir, f"edges_{tier}_{label.replace('/', '_')}.ndjson")
         res = vlib.tlc("MC_Latch", os.path.basename(cfg), tags=("EDGE",), sinks={"EDGE": edges},
                        timeout=3000 if tier == "thorough" else 600,
                        workers=vlib.NCPU if tier == "thorough" else 8, heap="24g" if tier == "thorough" else "8g")
